@@ -1,12 +1,127 @@
-(* C04 -- Every silent corruption of synced data or parity is detected and located.  (first part; see below) *)
-From Coq Require Import NArith ZArith List Bool Arith.
-From Snap.Array Require Import ArrayDefs.
-From Snap.Fix Require Import FixModel.
+(* C04 -- Every silent corruption of synced data or parity is detected and located.
+   Statements only; models: Fix/FixModel.v (check.c state_check_process, one stripe = stripe_step / data_phase /
+   compare_phase) and Fix/ScrubStep.v (scrub.c readers and comparisons over C15's Scrub/ScrubModel.v stripe_outcome);
+   proofs: Fix/StripeProofs.v, Fix/ScrubProofs.v.  The invariant of C06 enters through Array/SyncProofsDefs.v
+   (slot_of, stripe_synced, enc_ok).
+
+   Vocabulary (Fix/StripeProofs.v), for a stripe `pos` of content `c` and a run state `s` (file system, flags, parity, counters):
+     plain o            no filter option: not -a, not -e, nothing excluded, every parity level opened and not excluded
+     is_bad j           the block of disk position j cannot be read in full or does not hash to the recorded hash
+     bufval j           what the data loop puts in the buffer for position j (the block read; zero if none)
+     tag_of j           the error tag of position j: error:<pos>:<disk>:<file>: Data error | Read error | Open error
+     wrong_level rec buf l   the parity block read for level l is there and is NOT the encoding of the buffer
+     prow par pos l     the parity block of level l at this position
+   (Fix/ScrubProofs.v)  sbad j / pbad l / dtags j: the same for the scrub readers *)
+From Coq Require Import NArith ZArith List Bool Arith Lia.
+From Snap.Array Require Import ArrayDefs SyncProofsDefs.
+From Snap.Fix Require Import FixModel ScrubStep RepairProofs StripeProofs ScrubProofs.
+Require Snap.Scrub.ScrubModel.
 Import ListNotations.
 
-(* nothing failed: repair reports nothing and changes nothing *)
-Theorem C04_repair_nothing_failed :
-  forall hashf padz bs nlev reduced pos nosearch fs0 rec buf jn,
-    repair hashf padz bs nlev reduced pos nosearch fs0 [] rec buf jn = (ROk, [], buf, jn, []).
-Proof. reflexivity. Qed.
-Print Assumptions C04_repair_nothing_failed.
+(* 1. check_locates, data (check, check -a and fix alike: it is the loop over the disks): on a stripe whose blocks are all
+      BLK the error tags emitted are EXACTLY one tag per damaged block, in disk order, each naming position, disk, file and
+      block index; one error is counted per tag; the failed set handed to repair is exactly the damaged blocks.  Valid
+      for every state of the files except "larger than recorded" (which additionally gives a Size error). *)
+Theorem C04_data_errors_located :
+  forall (hashf : bid -> N -> hval) (padz : bid -> N -> bool) (truncf : bid -> N -> bid) (bs : N) (nlev : nat)
+         (newino : nat -> N -> N) (now : Z) (o : copts) (c : content) (pos : nat) (s : rstate),
+    plain nlev o -> stripe_synced c pos -> length (r_fs s) = length (c_disks c) ->
+    (forall j f idx b, slot_of c pos j = SFile f idx b ->
+       (0 < block_len bs (cf_size f) idx)%N
+       /\ (forall g, fs_find (r_fs s) j (cf_name f) = Some g -> (ff_size g <= cf_size f)%N)
+       /\ (co_fix o = true \/ fl_missing (get_fl (r_flags s) (j, cf_name f)) = false)) ->
+    let a := data_phase hashf bs newino now o c pos s in
+    r_tags (da_st a) = r_tags s ++ flat_map (tag_of hashf bs o c pos s) (seq 0 (length (c_disks c)))
+    /\ r_err (da_st a) = r_err s + length (filter (is_bad hashf bs c pos s) (seq 0 (length (c_disks c))))
+    /\ map fe_idx (da_failed a) = filter (is_bad hashf bs c pos s) (seq 0 (length (c_disks c)))
+    /\ (forall j, tag_of hashf bs o c pos s j = [] <-> is_bad hashf bs c pos s j = false)
+    /\ (forall j t, In t (tag_of hashf bs o c pos s j) ->
+          exists f idx b k, slot_of c pos j = SFile f idx b /\ t = tg k [pos; j] [cf_name f; N.of_nat idx]
+                            /\ (k = K_ERR_DATA \/ k = K_ERR_READ \/ k = K_ERR_OPEN)).
+Proof. intros hashf padz truncf. exact (data_errors_located hashf padz truncf). Qed.
+Print Assumptions C04_data_errors_located.
+
+(* 2. a block is flagged iff it is not the recorded block (collision freedom between the block read and the recorded one) *)
+Theorem C04_is_bad_iff_damaged :
+  forall (hashf : bid -> N -> hval) (bs : N) (c : content) (pos : nat) (s : rstate) (v : list bid) (j : nat) (f : cfile) (idx : nat) (b : fblock),
+    slot_of c pos j = SFile f idx b -> enc_ok hashf bs c pos v -> j < length (c_disks c) ->
+    (forall y, read_block bs s j f idx = Some y -> hash_ok hashf bs f idx b y = true -> y = vnth v j) ->
+    (is_bad hashf bs c pos s j = false <-> read_block bs s j f idx = Some (vnth v j)).
+Proof. exact is_bad_iff. Qed.
+Print Assumptions C04_is_bad_iff_damaged.
+
+(* 3. check_locates, parity: the comparison of the parity read with the parity computed from the (repaired) buffer emits
+      EXACTLY one parity_error:<pos>:<level> tag per level whose block is there and is not the encoding of the buffer,
+      counts one error each, and marks exactly those levels for rewriting; with C01_repair_restores the buffer is the
+      recorded vector, so these are exactly the damaged levels *)
+Theorem C04_parity_errors_located :
+  forall (nlev pos : nat) (rec : list penc) (buf : list bid) (s : rstate),
+    compare_phase nlev pos rec buf s
+    = (map (fun l => if wrong_level rec buf l then PNone else nth l rec PNone) (seq 0 nlev),
+       mkRS (r_fs s) (r_flags s) (r_par s) (r_err s + length (filter (wrong_level rec buf) (seq 0 nlev))) (r_rec s) (r_unrec s)
+            (r_tags s ++ map (fun l => tg K_PAR_DATA [pos; l] []) (filter (wrong_level rec buf) (seq 0 nlev))) (r_jn s)).
+Proof. exact compare_phase_spec. Qed.
+Print Assumptions C04_parity_errors_located.
+
+(* 4. no_false_alarm, check: on an undamaged stripe (every block reads and hashes to the recorded hash, every level encodes
+      what was read) the whole stripe step of `check` reports nothing, counts nothing and changes nothing *)
+Theorem C04_check_no_false_alarm :
+  forall (hashf : bid -> N -> hval) (padz : bid -> N -> bool) (truncf : bid -> N -> bid) (bs : N) (nlev : nat) (reduced : bool)
+         (newino : nat -> N -> N) (now : Z) (o : copts) (c : content) (fs0 : list (option fsdisk)) (pos : nat) (s : rstate),
+    plain nlev o -> co_fix o = false -> stripe_synced c pos -> length (r_fs s) = length (c_disks c) ->
+    (forall j f idx b, slot_of c pos j = SFile f idx b ->
+       (0 < block_len bs (cf_size f) idx)%N
+       /\ (forall g, fs_find (r_fs s) j (cf_name f) = Some g -> (ff_size g <= cf_size f)%N)
+       /\ (co_fix o = true \/ fl_missing (get_fl (r_flags s) (j, cf_name f)) = false)) ->
+    (forall j, is_bad hashf bs c pos s j = false) ->
+    (forall l, l < nlev -> par_matches (map (bufval bs c pos s) (seq 0 (length (c_disks c)))) (prow (r_par s) pos l) = true) ->
+    (forall j f idx b, slot_of c pos j = SFile f idx b ->
+       fl_damaged (get_fl (r_flags s) (j, cf_name f)) = false /\ fl_fixed (get_fl (r_flags s) (j, cf_name f)) = false) ->
+    let s' := stripe_step hashf padz truncf bs nlev reduced newino now o c fs0 s pos in
+    r_tags s' = r_tags s /\ r_err s' = r_err s /\ r_rec s' = r_rec s /\ r_unrec s' = r_unrec s /\ r_fs s' = r_fs s /\ r_par s' = r_par s.
+Proof. exact check_step_quiet. Qed.
+Print Assumptions C04_check_no_false_alarm.
+
+(* 5. scrub_locates: on a synced stripe whose files keep size and time-stamp (silent corruption) and whose levels all have a
+      block, scrub marks the stripe bad IFF a data block does not hash to its recorded hash or (the data being fine) a
+      level is not the encoding of the data; the tags are exactly the damaged data blocks, plus -- only when no data block
+      is damaged, as scrub.c compares the parity only then -- the damaged levels; silent errors are counted accordingly;
+      the stripe's time-stamp is refreshed iff it is not marked bad *)
+Theorem C04_scrub_locates :
+  forall (hashf : bid -> N -> hval) (bs : N) (nlev : nat) (io_limit : N) (c : content) (par : parity) (fs : list (option fsdisk)) (pos : nat),
+    stripe_synced c pos ->
+    (forall j f idx b, slot_of c pos j = SFile f idx b ->
+       exists g, fs_find fs j (cf_name f) = Some g /\ ff_size g = cf_size f /\ ff_mtime g = cf_mtime f /\ ff_nsec g = cf_nsec f
+                 /\ (N.of_nat idx * bs + block_len bs (cf_size f) idx <= cf_size f)%N) ->
+    (forall l, l < nlev -> prow par pos l <> PNone) ->
+    forall cnt, exists o,
+      scrub_stripe hashf bs nlev io_limit cnt c par fs pos = Some o
+      /\ so_bad o = existsb (sbad hashf bs c fs pos) (seq 0 (length (c_disks c))) || existsb (pbad c par fs pos) (seq 0 nlev)
+      /\ so_refreshed o = negb (so_bad o)
+      /\ so_tags o = flat_map (dtags hashf bs c fs pos) (seq 0 (length (c_disks c)))
+                     ++ (if existsb (sbad hashf bs c fs pos) (seq 0 (length (c_disks c))) then []
+                         else map (fun l => (K_SC_PAR_DATA, [N.of_nat pos; N.of_nat l])) (filter (pbad c par fs pos) (seq 0 nlev)))
+      /\ ScrubModel.c_error (so_cnt o) = ScrubModel.c_error cnt /\ ScrubModel.c_io (so_cnt o) = ScrubModel.c_io cnt
+      /\ ScrubModel.c_silent (so_cnt o)
+         = (ScrubModel.c_silent cnt + N.of_nat (length (filter (sbad hashf bs c fs pos) (seq 0 (length (c_disks c)))))
+            + (if existsb (sbad hashf bs c fs pos) (seq 0 (length (c_disks c))) then 0
+               else N.of_nat (length (filter (pbad c par fs pos) (seq 0 nlev)))))%N.
+Proof. exact scrub_stripe_spec. Qed.
+Print Assumptions C04_scrub_locates.
+
+(* 6. no_false_alarm, scrub: nothing damaged -> nothing reported, nothing marked, counters unchanged, time-stamp refreshed *)
+Theorem C04_scrub_no_false_alarm :
+  forall (hashf : bid -> N -> hval) (bs : N) (nlev : nat) (io_limit : N) (c : content) (par : parity) (fs : list (option fsdisk)) (pos : nat),
+    stripe_synced c pos ->
+    (forall j f idx b, slot_of c pos j = SFile f idx b ->
+       exists g, fs_find fs j (cf_name f) = Some g /\ ff_size g = cf_size f /\ ff_mtime g = cf_mtime f /\ ff_nsec g = cf_nsec f
+                 /\ (N.of_nat idx * bs + block_len bs (cf_size f) idx <= cf_size f)%N) ->
+    (forall l, l < nlev -> prow par pos l <> PNone) ->
+    forall cnt,
+    (forall j, sbad hashf bs c fs pos j = false) -> (forall l, l < nlev -> pbad c par fs pos l = false) ->
+    exists o, scrub_stripe hashf bs nlev io_limit cnt c par fs pos = Some o
+              /\ so_bad o = false /\ so_refreshed o = true /\ so_tags o = []
+              /\ ScrubModel.c_error (so_cnt o) = ScrubModel.c_error cnt /\ ScrubModel.c_io (so_cnt o) = ScrubModel.c_io cnt
+              /\ ScrubModel.c_silent (so_cnt o) = ScrubModel.c_silent cnt.
+Proof. exact scrub_stripe_quiet. Qed.
+Print Assumptions C04_scrub_no_false_alarm.
